@@ -266,6 +266,12 @@ fn fault_kind(name: &str) -> String {
 
 pub fn c04(ctx: &mut Ctx) {
     let scenario = "core.c04";
+    for p in ["queries.single", "queries.all", "queries.adjacent-siblings", "queries.both-edges", "queries.one-subtree", "queries.dense", "queries.adjacent-non-siblings", "queries.sparse"] {
+        ctx.stats.declare_probe(p);
+    }
+    for d in 0..=8 {
+        ctx.stats.declare_probe(&format!("friendly-boundary.depth{d}"));
+    }
     let n_inst: u64 = if ctx.is_quick() { 1500 } else { 40_000 };
     let max_h: u64 = if ctx.is_quick() { 10 } else { 14 };
     for k in 0..n_inst {
@@ -462,6 +468,9 @@ fn tab_faults(call: &TabCall, n_cols: usize, rng: &mut Rng) -> Vec<(String, TabC
 
 pub fn c05(ctx: &mut Ctx) {
     let scenario = "core.c05";
+    for p in ["table.single-column", "table.row-layer-friendly-exactly", "table.row-layer-masked-tree-friendly", "queries.single", "queries.all", "queries.adjacent-siblings"] {
+        ctx.stats.declare_probe(p);
+    }
     let n_inst: u64 = if ctx.is_quick() { 3_000 } else { 40_000 };
     for k in 0..n_inst {
         if !ctx.mine(k) {
